@@ -557,4 +557,53 @@ def stepsAtN1 (l : Layout) (bounds : List (List Nat)) (el : Nat) : Except Err (L
     let dyn0 := if v = 0 then el else fb.getD p 0 * (v * el)
     .ok (regroup l.ts (stepsRev el (flat.zip fb).reverse dyn0).reverse)
 
+/-! ## `get_step_ops` on a memref whose layout is a `StridedLayoutAttr` (the metadata branch, tree with FC10a) -/
+
+/-- per tile of one dimension: the step pre-assigned from `memref.extract_strided_metadata` — only the LAST
+    tile of the dimension, and only if its step is dynamic: `metadata.strides[dim] * element_size` -/
+def preDim (pre : Nat) : TStride → List (Option Nat)
+  | [] => []
+  | [s] => [if s.step.isNone then some pre else none]
+  | _ :: s :: r => none :: preDim pre (s :: r)
+
+/-- the pre-assigned steps of a layout (`mstr` = run-time strides of the memref in elements, `elSize` = size of the
+    element type in bytes — the code multiplies by it whether or not `in_bytes` is set) -/
+def preLayout (elSize : Nat) : List TStride → List Nat → Except Err (List (List (Option Nat)))
+  | [], _ => .ok []
+  | _ :: _, [] => .error .indexError             -- `metadata_op.strides[dim]`
+  | t :: ts, m :: ms =>
+    if t = [] then .error .indexError            -- `tsl.get_stride(dim, -1)`
+    else match preLayout elSize ts ms with
+      | .error e => .error e
+      | .ok r => .ok (preDim (m * elSize) t :: r)
+
+/-- the right-to-left assignment loop with pre-assigned steps: a dynamic tile takes its pre-assigned step if it
+    has one, else the chain value; either way the chain continues with `step * bound` -/
+def stepsRevM (el : Nat) : List ((Stride × Nat) × Option Nat) → Nat → List Nat
+  | [], _ => []
+  | ((s, b), pre) :: r, dyn =>
+    match s.step with
+    | some st => (st * el) :: stepsRevM el r dyn
+    | none =>
+      let stp := match pre with
+        | some p => p
+        | none => dyn
+      stp :: stepsRevM el r (stp * b)
+
+/-- `get_step_ops(bound_ops, memref_op, in_bytes)` for a memref with a `StridedLayoutAttr`
+    (`el` = `elSize` if `in_bytes` else 1) -/
+def stepsAtStrided (l : Layout) (bounds : List (List Nat)) (el elSize : Nat) (mstr : List Nat) :
+    Except Err (List (List Nat)) :=
+  match preLayout elSize l.ts mstr with
+  | .error e => .error e
+  | .ok pre =>
+    let flat := l.strides
+    let fb := bounds.flatten
+    if l.ts = [] then .error .indexError
+    else if flat.length ≠ fb.length then .error .indexError
+    else
+      let (p, v) := maxStep flat 0 (flat.length - 1) 0
+      let dyn0 := if v = 0 then el else fb.getD p 0 * (v * el)
+      .ok (regroup l.ts (stepsRevM el ((flat.zip fb).zip pre.flatten).reverse dyn0).reverse)
+
 end SnaxVerif.Tsl
